@@ -79,7 +79,7 @@ def floors(ctx):
             "no_match_none": 100 if q else 1000, "match_is_start": 20, "sought_not_identical": 100,
             "some_vertex_lacks_attr": 100, "match_only_outside_universe": 10, "cases_with_caching_on": 100, "identical_but_unequal_value_sought": 20,
             "match_through_class_level_attribute_or_property": 100,
-            "cases_with_attribute_name_that_is_not_an_identifier": 100}
+            "cases_with_attribute_name_that_is_not_an_identifier": 100, "searches_over_unhashable_vertices": 50}
 
 
 def _matches(v, attr, val):
@@ -110,7 +110,15 @@ def _run_case(ctx, spec, si, attr, vi, absent, _shrinking, cache):
     # expected answer run afterwards
     first = {name: oracles.outcome(sf, uni, start, attr, val) for name, (sf, tf) in SEARCH.items()}
     for name, (sf, tf) in SEARCH.items():
-        order = tf(uni, start)
+        listed = oracles.outcome(tf, uni, start)
+        if listed[0] != "ok":
+            # the corresponding traversal itself refuses this graph (set-based traversals and unhashable
+            # vertices): nothing to be the first match of
+            ctx.count("search_skipped_because_its_traversal_refuses_the_graph")
+            continue
+        order = listed[1]
+        if "UnhashableVertex" in spec["verts"]:
+            ctx.count("searches_over_unhashable_vertices")
         exp = None
         pos = None
         for k, v in enumerate(order):
@@ -232,6 +240,10 @@ def run(ctx):
         run_case(ctx, dict(spec, attrs={}), r.choice(starts), "idx", 1)
         run_case(ctx, spec, r.choice(starts), r.choice(["uid", "uid", "kind", "parity", "slot_a"]), r.randrange(12),
                  cache=r.random() < 0.3)
+        # vertices that cannot be hashed: whatever traversal lists them, its search finds the first match
+        if k % 5 == 0:
+            uspec = dict(spec, verts=[("UnhashableVertex" if r.random() < 0.7 else c) for c in spec["verts"]])
+            run_case(ctx, uspec, r.choice(starts), "key", r.choice(pool), cache=r.random() < 0.3)
         # attribute names that are not identifiers: a dotted name is ONE attribute (set through attributes= /
         # v["unit.cost"] = ...), not a path; "key.real" also exists as a path on vertices whose key is a number
         odd = r.choice(["key.real", "unit.cost", "key.", " key", "__class__.__name__"])
